@@ -190,6 +190,31 @@ class Evaluator:
 
         def argv():
             return [self.ev(a, args, depth) for a in e[2]]
+        if "<impl u8>::" in name and short in ("wrapping_sub", "wrapping_add", "wrapping_mul", "saturating_sub", "saturating_add",
+                                                 "checked_sub", "checked_add", "abs_diff", "min", "max", "eq_ignore_ascii_case"):
+            a, b = argv()
+            if isinstance(a, int) and isinstance(b, int):
+                if short == "wrapping_sub":
+                    return (a - b) & 0xFF
+                if short == "wrapping_add":
+                    return (a + b) & 0xFF
+                if short == "wrapping_mul":
+                    return (a * b) & 0xFF
+                if short == "saturating_sub":
+                    return max(0, a - b)
+                if short == "saturating_add":
+                    return min(255, a + b)
+                if short == "checked_sub":
+                    return ("opt", a - b) if a >= b else ("opt", None)
+                if short == "checked_add":
+                    return ("opt", a + b) if a + b <= 255 else ("opt", None)
+                if short == "abs_diff":
+                    return abs(a - b)
+                if short in ("min", "max"):
+                    return min(a, b) if short == "min" else max(a, b)
+                if short == "eq_ignore_ascii_case":
+                    lo = STD_MODELS["to_ascii_lowercase"]
+                    return int(lo(a) == lo(b))
         if short in STD_MODELS and ("u8" in name or "char" in name or "core::" in name or "std::" in name):
             v = argv()[0]
             if isinstance(v, int):
